@@ -1,6 +1,6 @@
 import Aqua.Exec.Call
 /-
-The instruction interpreter `exec` (fuelled) for the modelled fragment.
+The instruction interpreter `exec` (fuelled): every instruction of the AST.
 -/
 namespace Aqua.Exec
 open Aqua Aqua.Json Aqua.Air Aqua.Data Aqua.Trace
@@ -45,7 +45,11 @@ def failOperand (c : Ctx) (arg : FailArg) : ER (JVal × Option Tetraplet × Prov
     pure (v, ts.head?, p)
   | .literal code msg =>
     .ok (errorFromRawFields code msg (FailArg.literal code msg).render (some c.initPeerId), some (Tetraplet.literal c.initPeerId), .literal)
-  | .canonWL .. => unmodelled "fail with canon stream"
+  | .canonWL name l => do
+    -- `fail_with_canon_stream`
+    let (v, ts, p) ← resolveValue c (.canonWL name l)
+    errObjER (checkErrorObject v)
+    pure (v, ts.head?, p)
   | .lastError => do
     let ie := c.lastError.error
     errObjER (checkErrorObject ie.error)
@@ -83,7 +87,8 @@ def applyToArg (c : Ctx) (arg : Value) : ER ValueAggregate :=
   | .float r => const (.float r)
   | .boolean b => const (.bool b)
   | .emptyArray => const (.arr [])
-  | .error _ | .lastError _ | .scalarWL .. => do
+  | .error _ | .lastError _ | .scalarWL .. | .canonWL .. | .canonMapWL .. => do
+    -- `apply_error` / `apply_last_error` / `apply_scalar_wl` / `apply_canon_stream_wl` / `apply_canon_stream_map_wl`
     let (v, ts, p) ← resolveValue c arg
     match ts with
     | t :: _ => pure (ValueAggregate.new v t pos p)
@@ -100,7 +105,11 @@ def applyToArg (c : Ctx) (arg : Value) : ER ValueAggregate :=
     let cs ← c.scalars.getCanonStream name
     let v : JVal := .arr (cs.canonStream.values.map (·.result))
     pure (ValueAggregate.new v { peerPk := cs.canonStream.tetraplet.peerPk, lens := cs.canonStream.tetraplet.lens } pos (.canon cs.cid))
-  | .canonWL .. | .canonMap _ | .canonMapWL .. => unmodelled "ap with canon stream lens / canon map argument"
+  | .canonMap name => do
+    -- `apply_canon_stream_map`: the whole canon map as one object carrying the canon's tetraplet and id
+    let cm ← c.scalars.getCanonMap name
+    let t := cm.canonStreamMap.tetraplet
+    pure (ValueAggregate.new cm.canonStreamMap.asJvalue { peerPk := t.peerPk, lens := t.lens } pos (.canon cm.cid))
 
 /-- update of the scalar store only -/
 def withScalars (c : Ctx) (g : Scalars → ER Scalars) : ER Ctx :=
@@ -119,7 +128,7 @@ def execAp (arg : Value) (out : CallOutput) : M Unit :=
     match ← joinable (readER fun c => applyToArg c arg) with
     | none => pure ()
     | some v => setScalar name v
-  | _ => throwE (.unmodelled "ap into a stream")
+  | _ => throwE (.unmodelled "ap without a result variable (not in `ApResult`; stream results are dispatched before)")
 
 /-- `apply_to_arg(.., should_touch_trace = true)`: a scalar argument takes the position of the `ap` state -/
 def applyToArgStream (c : Ctx) (arg : Value) : ER ValueAggregate :=
@@ -144,7 +153,73 @@ def execApStream (i : Instr) (arg : Value) (name : String) (pos : Nat) : M Unit 
     modifyER (fun c => c.addStreamValue v name (generationOfAp met) pos) >>= fun _ =>
     modifyCtx fun c => { c with th := c.th.meetApEnd [generationStub] }
 
-/-! ## canon (`canon.rs`, `canon_utils/mod.rs`) -/
+/-! ## `ap` into a stream map (`ap_map.rs`) -/
+
+/-- `unsupported_map_key_type` -/
+def unsupportedMapKeyType (mapName : String) : CatchableErr := .streamMapError s!"unsupported type for {mapName} map's key"
+
+/-- `resolve_key_if_needed` -/
+def resolveKeyIfNeeded (c : Ctx) (key : Value) (mapName : String) : ER Lens.StreamMapKey :=
+  match key with
+  | .literal s => .ok (.str s)
+  | .number n => .ok (.i64 n)
+  | .scalar _ | .scalarWL .. | .canonWL .. => do
+    let (v, _, _) ← resolveValue c key
+    match Lens.StreamMapKey.fromValue v with
+    | some k => pure k
+    | none => catchable (unsupportedMapKeyType mapName)
+  | _ => unmodelled "stream map key (not in `StreamMapKeyClause`)"
+
+/-- `ApMap::execute`: the value is resolved first, then the `ap` state is merged, then the key is resolved
+(both with `joinable!`), the key-value object goes to the generation the data names, the stub state is pushed -/
+def execApMap (i : Instr) (key val : Value) (name : String) (pos : Nat) : M Unit :=
+  joinable (readER fun c => applyToArgStream c val) >>= fun r =>
+  match r with
+  | none => pure ()
+  | some v =>
+    liftTH i (fun th => th.meetApStart) >>= fun met =>
+    joinable (readER fun c => resolveKeyIfNeeded c key name) >>= fun k =>
+    match k with
+    | none => pure ()
+    | some k =>
+      modifyER (fun c => c.addStreamMapValue k v name (generationOfAp met) pos) >>= fun _ =>
+      modifyCtx fun c => { c with th := c.th.meetApEnd [generationStub] }
+
+/-! ## canon (`canon.rs`, `canon_map.rs`, `canon_stream_map_scalar.rs`, `canon_utils/mod.rs`) -/
+
+/-- what a `canon` binds: a canon stream (`canon.rs`), a canon stream map (`canon_map.rs`) or a scalar holding the
+map as one object (`canon_stream_map_scalar.rs`); the three instructions share `canon_utils` and differ in the
+producer and epilog closures -/
+inductive CanonTarget where
+  | stream (name : String)
+  | map (name : String)
+  | scalar (name : String)
+deriving Repr, DecidableEq, Inhabited
+
+/-- the `create_canon_stream_producer` closures: a snapshot of the stream / of the stream map's pairs as the peer
+sees them now (`iter()`: previous, current, new), or — for the scalar form — ONE literal value: the object of
+the map's unique keys -/
+def canonProduce (target : CanonTarget) (c : Ctx) (stream : String) (streamPos : Nat) (peerId : String) : CanonStream :=
+  let values := match c.getStream stream streamPos with
+    | some s => s.all
+    | none => []
+  match target with
+  | .stream _ | .map _ => ⟨values, { peerPk := peerId }⟩
+  | .scalar _ => ⟨[⟨JVal.mkObj (iterUniqueKeyObject values []), Tetraplet.literal peerId, 0, .literal⟩], { peerPk := peerId }⟩
+
+/-- the epilog closures up to the trace: bind the canon stream / the canon map built from it / the scalar -/
+def canonBind (target : CanonTarget) (cs : CanonStream) (cid : Cid) (c : Ctx) : ER Scalars :=
+  match target with
+  | .stream canonName => c.scalars.setCanonValue canonName ⟨cs, cid⟩
+  | .map canonMapName => do
+    let m ← CanonStreamMapAgg.fromCanonStream cs
+    c.scalars.setCanonMapValue canonMapName ⟨m, cid⟩
+  | .scalar scalarName =>
+    match cs.values.head? with
+    | none => uncatchable .canonStreamMapError          -- `NoDataToProduceScalar`
+    | some first =>
+      -- `CanonResultAggregate::new(value, peer_pk, &tetraplet.lens, position)` + `from_canon_result`
+      c.scalars.setScalarValue scalarName ⟨first.result, { peerPk := cs.tetraplet.peerPk, lens := cs.tetraplet.lens }, c.th.tracePos, .canon cid⟩
 
 def Ctx.recordCanonCid (c : Ctx) (peerId : String) (cid : Cid) : Ctx :=
   if peerId == c.currentPeerId then { c with peerCids := c.peerCids ++ [cid] } else c
@@ -152,23 +227,20 @@ def Ctx.recordCanonCid (c : Ctx) (peerId : String) (cid : Cid) : Ctx :=
 /-- the epilog closure of `canon` together with the registration of the canon id that precedes it in
 Rust (`record_canon_cid`, then `set_canon_value`, then `meet_canon_end`): one atomic update — if binding the
 name fails (shadowing: an uncatchable error, the run returns the previous data) nothing is kept -/
-def canonFinish (canonName : String) (cs : CanonStream) (cid : Cid) (registerFor : String) : M Unit :=
+def canonFinish (target : CanonTarget) (cs : CanonStream) (cid : Cid) (registerFor : String) : M Unit :=
   modifyER fun c => do
-    let sc ← c.scalars.setCanonValue canonName ⟨cs, cid⟩
+    let sc ← canonBind target cs cid c
     let c := c.recordCanonCid registerFor cid
     pure { c with scalars := sc, th := c.th.meetCanonEnd (.executed cid) }
 
 /-- `create_canon_stream_for_first_time`: snapshot of the stream as the peer sees it now
 (`stream.iter()`: previous, current, new), tracked in the CID stores, registered and bound -/
-def createCanonFirstTime (env : Env) (canonName stream : String) (streamPos : Nat) (peerId : String) : M Unit :=
+def createCanonFirstTime (env : Env) (target : CanonTarget) (stream : String) (streamPos : Nat) (peerId : String) : M Unit :=
   stateER (fun c =>
-    let values := match c.getStream stream streamPos with
-      | some s => s.all
-      | none => []
-    let cs : CanonStream := ⟨values, { peerPk := peerId }⟩
+    let cs : CanonStream := canonProduce target c stream streamPos peerId
     let (cid, st) := trackCanonResult env c.cid cs
     .ok ((cs, cid), { c with cid := st })) >>= fun r =>
-  canonFinish canonName r.1 r.2 peerId
+  canonFinish target r.1 r.2 peerId
 
 /-- what `handle_canon_executed` reads: the resolved peer (for the tetraplet check) and the CID stores —
 never the live stream -/
@@ -184,11 +256,11 @@ def canonRead (env : Env) (peer : Value) (cid : Cid) (c : Ctx) : ER CanonStream 
     pure (({ values := values, tetraplet := t } : CanonStream))
 
 /-- `handle_canon_executed`: the canon stream is rebuilt from the stores alone (never from the live stream) -/
-def canonExecuted (env : Env) (canonName : String) (peer : Value) (cid : Cid) : M Unit :=
+def canonExecuted (env : Env) (target : CanonTarget) (peer : Value) (cid : Cid) : M Unit :=
   readER (canonRead env peer cid) >>= fun cs =>
-  canonFinish canonName cs cid cs.tetraplet.peerPk
+  canonFinish target cs cid cs.tetraplet.peerPk
 
-def execCanon (env : Env) (i : Instr) (peer : Value) (stream : String) (streamPos : Nat) (canonName : String) : M Unit :=
+def execCanon (env : Env) (i : Instr) (peer : Value) (stream : String) (streamPos : Nat) (canonName : CanonTarget) : M Unit :=
   liftTH i (fun th => th.meetCanonStart) >>= fun met =>
   match met with
   | .canonResult (.executed cid) => canonExecuted env canonName peer cid
@@ -216,6 +288,17 @@ def areMatchableEq (c : Ctx) (a b : Value) : ER Bool := do
   let (r, _, _) ← resolveValue c b
   pure (l == r)
 
+/-- the loop of `create_canon_stream_map_iterable_value` run over the REVERSED pairs: the first pair met of every
+key is kept (pairs without a map key are skipped); the result is in reversed order -/
+def firstPairPerKey : List ValueAggregate → List Lens.StreamMapKey → List ValueAggregate
+  | [], _ => []
+  | va :: rest, met =>
+    match Lens.StreamMapKey.fromKvpairOwned va.result with
+    | some key => if met.contains key then firstPairPerKey rest met else va :: firstPairPerKey rest (key :: met)
+    | none => firstPairPerKey rest met
+
+def lastPairPerKey (values : List ValueAggregate) : List ValueAggregate := (firstPairPerKey values.reverse []).reverse
+
 /-- scalar iterables of `fold` (`fold/utils.rs`) -/
 def createScalarIterable (c : Ctx) (iterable : Value) : ER (Option IterableValue) :=
   let fromValue (v : ValueAggregate) (name : String) : ER (Option IterableValue) :=
@@ -241,7 +324,22 @@ def createScalarIterable (c : Ctx) (iterable : Value) : ER (Option IterableValue
   | .canon name => do
     let cs ← c.scalars.getCanonStream name
     if cs.canonStream.values.isEmpty then pure none else pure (some (.vec cs.canonStream.values 0))
-  | _ => unmodelled "fold over a canon stream map"
+  | .canonMap name => do
+    -- `create_canon_stream_map_iterable_value`: the LAST pair of every key, in the order of these last occurrences
+    let cm ← c.scalars.getCanonMap name
+    if cm.canonStreamMap.isEmpty then pure none else pure (some (.vec (lastPairPerKey cm.canonStreamMap.values) 0))
+  | .canonMapWL name l => do
+    -- `create_canon_stream_map_wl_iterable_value`
+    let cm ← c.scalars.getCanonMap name
+    if cm.canonStreamMap.isEmpty then pure none
+    else do
+      -- `JValuable::apply_lambda` (the value part only)
+      let sel ← lensOfLambda l fun lam => Lens.selectByLambdaFromCanonMap c.scalars cm.canonStreamMap.toLens lam
+      let t' := populateTetrapletWithLambda cm.canonStreamMap.tetraplet l
+      match sel with
+      | .arr a => if a.isEmpty then pure none else pure (some (.lambdaResult a t' (.canon cm.cid) 0))
+      | other => catchable (.foldIteratesOverNonArray other l.render)
+  | _ => unmodelled "fold iterable (not in `FoldScalarIterable`)"
 
 /-- xor: state changes when the left branch failed catchably, before the right branch runs -/
 def xorEnterRight (e : CatchableErr) (c : Ctx) : Ctx :=
@@ -320,6 +418,9 @@ def foldStreamGet (name : String) (pos : Nat) : M Stream :=
 def newLeaveCanon (name : String) : Ctx → ER (Bool × Ctx) := fun c =>
   withScalarsRet c fun s => let (sc, ok) := s.meetNewEndCanon name; .ok (ok, sc)
 
+def newLeaveCanonMap (name : String) : Ctx → ER (Bool × Ctx) := fun c =>
+  withScalarsRet c fun s => let (sc, ok) := s.meetNewEndCanonMap name; .ok (ok, sc)
+
 def isNext : Instr → Bool
   | .next _ => true
   | _ => false
@@ -376,7 +477,10 @@ def execInner (env : Env) (fuel : Nat) (i : Instr) : M Unit :=
     match out with
     | .stream name pos => execApStream i arg name pos
     | _ => execAp arg out
-  | .canon peer stream streamPos canonName => execCanon env i peer stream streamPos canonName
+  | .apMap key val name pos => execApMap i key val name pos
+  | .canon peer stream streamPos canonName => execCanon env i peer stream streamPos (.stream canonName)
+  | .canonMap peer map mapPos canonMapName => execCanon env i peer map mapPos (.map canonMapName)
+  | .canonMapScalar peer map mapPos scalarName => execCanon env i peer map mapPos (.scalar scalarName)
   | .fail arg => execFail arg
   | .foldScalar iterable iterator body last => do
     match ← joinable (readER fun c => createScalarIterable c iterable) with
@@ -422,7 +526,8 @@ def execInner (env : Env) (fuel : Nat) (i : Instr) : M Unit :=
           let d ← readCtx fun c => c.scalars.nonIterable.currentDepth
           throwE (.uncatchable (.scalarsStateCorrupted name d))
       | r => reraise r
-    | .stream name => do
+    | .stream name | .streamMap name => do
+      -- `streams.meet_scope_start` / `stream_maps.meet_scope_start` (one store, see `Streams.lean`)
       modifyCtx fun c => c.streamScopeStart name spanLeft spanRight
       let res ← tryM (exec env fuel body)
       -- epilog: the scope is closed and its stream instance compactified whatever the body returned
@@ -442,8 +547,18 @@ def execInner (env : Env) (fuel : Nat) (i : Instr) : M Unit :=
           let d ← readCtx fun c => c.scalars.canonStreams.currentDepth
           throwE (.uncatchable (.scalarsStateCorrupted name d))
       | r => reraise r
-    | _ => throwE (.unmodelled "new on a stream map / canon stream map")
-  | .foldStream stream streamPos iterator body last _ => do
+    | .canonMap name => do
+      modifyCtx fun c => { c with scalars := c.scalars.meetNewStartCanonMap name }
+      let res ← tryM (exec env fuel body)
+      let ok ← stateER (newLeaveCanonMap name)
+      match res with
+      | .ok () =>
+        if ok then pure ()
+        else do
+          let d ← readCtx fun c => c.scalars.canonMaps.currentDepth
+          throwE (.uncatchable (.scalarsStateCorrupted name d))
+      | r => reraise r
+  | .foldStream stream streamPos iterator body last _ | .foldMap stream streamPos iterator body last _ => do
     let exists_ ← readCtx fun c => (c.getStream stream streamPos).isSome
     if !exists_ then makeSubgraphIncomplete
     else do
@@ -456,7 +571,6 @@ def execInner (env : Env) (fuel : Nat) (i : Instr) : M Unit :=
       let complete ← execFoldStreamLoop env fuel fuel i stream streamPos iterator body last foldId st cur false
       modifyCtx fun c => { c with subgraphComplete := complete }
       liftTH' i (fun th => th.meetFoldEnd foldId)
-  | _ => throwE (.unmodelled ("instruction " ++ i.render))
 
 /-- the `while let Continue(iterables)` loop of `execute_with_stream`; `n` bounds the number of rounds
 (each round consumes at least one new generation; the stream size limit bounds them) -/
